@@ -69,16 +69,15 @@ Proof.
   { split; [discriminate|]. intros [H|[_ [H|[_ [H|[_ [H|[H _]]]]]]]]; [tauto | lia | lia | lia | rewrite H in Ht2; lia]. }
   assert (Ety : e_type a = e_type b) by (apply etype_idx_inj; lia).
   destruct (e_type b) eqn:Tb; rewrite ?Ety.
-  all: try (split; [discriminate|]; intros [H|[_ [H|[_ [H|[_ [H|[_ [H _]]]]]]]]]; [tauto | lia | lia | rewrite Ety in H; simpl in H; lia | congruence]).
+  all: try (split; [discriminate|]; intros [H|[_ [H|[_ [H|[_ [H|[_ [H _]]]]]]]]]; [tauto | lia | lia | simpl in H; lia | discriminate H]).
   rewrite N.ltb_lt. split.
   - intro H. right. split; [exact Eq|]. right. split; [exact Ep|]. right. split; [exact Emt|]. right. auto.
-  - intros [H|[_ [H|[_ [H|[_ [H|[_ [_ H]]]]]]]]]; [tauto | lia | lia | rewrite Ety in H; simpl in H; lia | exact H].
+  - intros [H|[_ [H|[_ [H|[_ [H|[_ [_ H]]]]]]]]]; [tauto | lia | lia | simpl in H; lia | exact H].
 Qed.
 
 Lemma ev_less_false_klt : forall a b, ev_less b a = false <-> ~ klt a b.
 Proof.
   intros a b. rewrite <- ev_less_klt. destruct (ev_less b a); split; intro H; try reflexivity; try discriminate; try congruence.
-  exfalso. apply H. reflexivity.
 Qed.
 
 (* ------------------------------------------------------------------------- *)
@@ -212,7 +211,7 @@ Lemma triggers_incomparable : forall t,
 Proof.
   intro t. split; [|discriminate].
   apply incomparable_iff. unfold stamp_eq, trigger_event. simpl.
-  repeat split; try reflexivity. discriminate.
+  repeat split; try reflexivity; try discriminate.
 Qed.
 
 (* ------------------------------------------------------------------------- *)
